@@ -38,6 +38,11 @@ Each derivation fails closed: an unexpected shape of the anchor yields a body ca
                    (is_str, is_other_path [bytes / os.PathLike], exists): the isinstance test must be
                    `str` (then other paths pass: the theorem guard_table fails) or
                    `(str, bytes, os.PathLike)`; the file must be opened `File(fhandle, 'a')`
+  from_dict_{result,rdms,dataset,model}
+                   how `result_from_dict` / `rdms_from_dict` / `dataset_from_dict` / `model_from_dict` read
+                   each field of the stored dictionary, as a function of (field index, key present, stored
+                   value truthy): 1 stored value used, 0 None, 2 another value, 3 KeyError (see `_from_dict`;
+                   `d.get(k) or default` puts 2 into the falsy column and breaks from_dict_fields_table)
 """
 import ast
 import os
@@ -360,6 +365,152 @@ def _guard():
     return lines + ['    return 0']
 
 
+
+# ----------------------------------------------------------------------------- *_from_dict
+
+FROM_DICT = {
+    # leaf: (file, function, name of the dictionary argument, fields in the order of the Lean model)
+    'from_dict_result': ('inference/result.py', 'result_from_dict', 'result_dict',
+                         ['evaluations', 'dof', 'variances', 'noise_ceiling', 'method', 'cv_method', 'n_rdm',
+                          'n_pattern', 'models', 'model_var', 'diff_var', 'noise_ceil_var']),
+    'from_dict_rdms': ('rdm/rdms.py', 'rdms_from_dict', 'rdm_dict',
+                       ['dissimilarities', 'descriptors', 'rdm_descriptors', 'pattern_descriptors',
+                        'dissimilarity_measure']),
+    'from_dict_dataset': ('data/dataset.py', 'dataset_from_dict', 'data_dict',
+                          ['type', 'measurements', 'descriptors', 'obs_descriptors', 'channel_descriptors',
+                           'time_descriptors']),
+    'from_dict_model': ('model/model.py', 'model_from_dict', 'model_dict', ['rdm', 'name', 'type']),
+}
+
+
+def _from_dict(path, fname, var, fields):
+    """how `*_from_dict` reads every field of the stored dictionary, as a function of
+    (field index, key present, stored value truthy):
+        1 the stored value is used      0 None / the constructor's own default is used
+        2 some other value is used      3 KeyError
+    Recognised forms: `d['k']` (required), `'k' in d.keys()` / `'k' in d` as the test of an `if`
+    (optional; subscripts in its body are guarded), `d.get('k')` / `d.get('k', None)` (optional),
+    `d.get('k', x)` (absent: another value).  A field access inside a boolean context (`x or y`,
+    `x and y`, `not x`, `a if x else b`, the test of an if / while / assert) depends on the *truth
+    value* of what was stored: a stored 0 / 0.0 / '' / [] / False is then not what is used (2), except
+    for the bare statement `if d['k']: <assignments>` (0: the value is left out, as for a model
+    without RDMs).  Equality tests against a constant (`d['type'] == 'Dataset'`) are dispatch, not
+    truthiness.  Any other use of the dictionary (passed on whole, iterated, unpacked) is not
+    understood (fail closed)."""
+    fn = _func(path, fname)
+    if [a.arg for a in fn.args.args] != [var]:
+        raise Underivable(f'{fname}: arguments changed')
+    parent = {}
+    for node in ast.walk(fn):
+        for ch in ast.iter_child_nodes(node):
+            parent[ch] = node
+    info = {k: {'sub': 0, 'unguarded': 0, 'truthy': 0, 'bare_if': 0, 'in': 0, 'get_none': 0, 'get_other': 0}
+            for k in fields}
+
+    def key_of(node):
+        if isinstance(node, ast.Constant) and isinstance(node.value, str):
+            if node.value not in info:
+                raise Underivable(f'{fname}: unexpected field {node.value!r}')
+            return node.value
+        raise Underivable(f'{fname}: a key of {var} that is no string constant')
+
+    def is_presence_test(t):
+        if isinstance(t, ast.Compare) and len(t.ops) == 1 and isinstance(t.ops[0], ast.In):
+            c = ast.unparse(t.comparators[0])
+            return c in (var, var + '.keys()')
+        return False
+
+    def context(expr):
+        """(boolean context?, bare if-test?, guarded by a presence test?) of an access expression"""
+        boolean, bare, guarded = False, False, False
+        node = expr
+        while node in parent and not isinstance(node, ast.FunctionDef):
+            up = parent[node]
+            if isinstance(up, (ast.BoolOp, ast.IfExp)) or (isinstance(up, ast.UnaryOp)
+                                                          and isinstance(up.op, ast.Not)):
+                boolean = True
+            if isinstance(up, (ast.If, ast.While)) and node is up.test:
+                if not (isinstance(node, ast.Compare) and len(node.ops) == 1
+                        and isinstance(node.ops[0], (ast.Eq, ast.In))
+                        and (all(isinstance(c, ast.Constant) for c in node.comparators)
+                             or is_presence_test(node))):
+                    boolean = True
+                    if node is expr and isinstance(up, ast.If) and not up.orelse \
+                            and all(isinstance(b, ast.Assign) for b in up.body):
+                        bare = True
+            if isinstance(up, ast.Assert):
+                boolean = True
+            if isinstance(up, ast.If) and node is not up.test and node in up.body and is_presence_test(up.test):
+                guarded = True
+            node = up
+        return boolean, bare, guarded
+
+    for node in ast.walk(fn):
+        if not (isinstance(node, ast.Name) and node.id == var):
+            continue
+        if isinstance(node.ctx, ast.Store) or node not in parent:
+            raise Underivable(f'{fname}: {var} is re-bound')
+        up = parent[node]
+        if isinstance(up, ast.arg):
+            continue
+        if isinstance(up, ast.Subscript) and up.value is node:
+            k = key_of(up.slice)
+            boolean, bare, guarded = context(up)
+            info[k]['sub'] += 1
+            info[k]['unguarded'] += 0 if guarded else 1
+            if bare:
+                info[k]['bare_if'] += 1
+            elif boolean:
+                info[k]['truthy'] += 1
+            continue
+        if isinstance(up, ast.Attribute) and up.value is node and up.attr == 'keys' \
+                and isinstance(parent.get(up), ast.Call) and is_presence_test(parent.get(parent[up])):
+            t = parent[parent[up]]
+            if not (isinstance(parent.get(t), ast.If) and parent[t].test is t):
+                raise Underivable(f'{fname}: presence test outside an if')
+            info[key_of(t.left)]['in'] += 1
+            continue
+        if isinstance(up, ast.Compare) and is_presence_test(up) and up.comparators[0] is node:
+            if not (isinstance(parent.get(up), ast.If) and parent[up].test is up):
+                raise Underivable(f'{fname}: presence test outside an if')
+            info[key_of(up.left)]['in'] += 1
+            continue
+        if isinstance(up, ast.Attribute) and up.value is node and up.attr == 'get' \
+                and isinstance(parent.get(up), ast.Call) and parent[up].func is up:
+            call = parent[up]
+            if call.keywords or not 1 <= len(call.args) <= 2:
+                raise Underivable(f'{fname}: {ast.unparse(call)}')
+            k = key_of(call.args[0])
+            none_default = len(call.args) == 1 or (isinstance(call.args[1], ast.Constant)
+                                                   and call.args[1].value is None)
+            info[k]['get_none' if none_default else 'get_other'] += 1
+            boolean, bare, _ = context(call)
+            if bare:
+                info[k]['bare_if'] += 1
+            elif boolean:
+                info[k]['truthy'] += 1
+            continue
+        raise Underivable(f'{fname}: use of {var} not understood: `{ast.unparse(up)[:60]}`')
+
+    lines, kw = [], 'if'
+    for i, k in enumerate(fields):
+        f = info[k]
+        if not (f['sub'] or f['get_none'] or f['get_other']):
+            raise Underivable(f'{fname}: field {k!r} is never read')
+        falsy = 2 if f['truthy'] else 0 if f['bare_if'] else 1
+        if f['get_other'] or (f['truthy'] and f['get_none']):
+            absent = 2                   # `d.get(k, x)`, `d.get(k) or x`
+        elif f['unguarded']:
+            absent = 3
+        else:
+            absent = 0
+        lines += [f'    {kw} field == {i}:', '        if present > 0:', '            if truthy > 0:',
+                  '                return 1', '            else:', f'                return {falsy}',
+                  '        else:', f'            return {absent}']
+        kw = 'elif'
+    return lines + ['    else:', '        return 9']
+
+
 # ----------------------------------------------------------------------------- emit
 
 def _derive():
@@ -388,6 +539,9 @@ def _derive():
     emit('save_default_dataset', [], lambda: _save_default('data/base.py', 'DatasetBase'))
     emit('save_default_result', [], lambda: _save_default('inference/result.py', 'Result'))
     emit('guard', ['is_str', 'is_other_path', 'path_exists'], _guard)
+    for leaf, (path, fname, var, fields) in FROM_DICT.items():
+        emit(leaf, ['field', 'present', 'truthy'],
+             lambda path=path, fname=fname, var=var, fields=fields: _from_dict(path, fname, var, fields))
 
     text = '\n'.join(out)
     if not (os.path.exists(DERIVED) and open(DERIVED).read() == text):
@@ -437,4 +591,8 @@ LEAVES = [
          ret='Nat'),
     dict(name='guard', file=DERIVED, func='guard', kind='func', params=_nat(['is_str', 'is_other_path', 'path_exists']),
          ret='Nat'),
+] + [
+    dict(name=n, file=DERIVED, func=f, kind='func', params=_nat(['field', 'present', 'truthy']), ret='Nat')
+    for n, f in (('fromDictResult', 'from_dict_result'), ('fromDictRdms', 'from_dict_rdms'),
+                 ('fromDictDataset', 'from_dict_dataset'), ('fromDictModel', 'from_dict_model'))
 ]
